@@ -62,6 +62,7 @@ static Case decode(const hv::Bytes& b) {
 		for (auto& e : o.script) {
 			{ const uint8_t sb = r.u8(); e.state = sb >= 160 ? (short) -1 : (short) (sb % HV_NS); e.skip = sb >= 160 ? (uint8_t) ((sb - 160) % 6) : 0; } const uint8_t m = r.u8(); e.method = SCRIPT_METHODS[(m & 0x3F) % sizeof SCRIPT_METHODS]; e.inj = (m & 0x80) && (e.state < 0 || hasInjection(e.state)) ? 1 : 0;
 			e.action = r.u8() % A_COUNT; e.x = r.u8(); e.y = r.u8(); e.z = r.u8(); e.used = false;
+			if (o.kind == OP_ENTER_EXIT) e.method = (uint8_t) Method::ENTRY_GUARD; // the only scriptable callbacks of an activation are the entry guards
 		}
 		c.ops.push_back(o);
 	}
@@ -105,7 +106,7 @@ struct Inst {
 	std::vector<Req> lastFirstExpected; std::vector<uint32_t> lastFirstTags;
 	int8_t activity[HV_NS]; bool activityKnown = false;
 	bool planExists[HV_REGION_COUNT > 0 ? HV_REGION_COUNT : 1]; bool markS[HV_NS], markF[HV_NS], markS0[HV_NS], markF0[HV_NS];   // C06 bookkeeping (marks outstanding now / at the start of the step)
-	bool overlongReplay = false;   // the current call replays more transitions than the transition sets hold (F31)
+	bool degenerateReplay = false; bool overlongReplay = false;   // the current call replays more transitions than the transition sets hold (F31)
 	bool degeneratePlanDest = false;   // a plan holds (held) a task whose destination is an orthogonal region without composite ancestor (F29)
 	bool inUpdateOrReact = false;
 	bool outstandingMarks = false;   // success/failure marks set outside update()/react() (externally or from a guard) not yet consumed
@@ -276,7 +277,7 @@ struct Walker {
 				bool degenerate = false;
 				for (int i = 0; i < in.ctx.n; ++i) { const Ev& e = in.ctx.tr[i]; if ((e.kind == E_ACT_REQ || e.kind == E_PEND || e.kind == E_LOG_TRANSITION) && e.a != T_SCHEDULE && e.b > 0 && e.b < HV_NS && node(e.b).kind == ORTHO) { bool onlyOrtho = true; for (int c = node(e.b).parent; c >= 0; c = node(c).parent) if (node(c).kind != ORTHO) onlyOrtho = false; if (onlyOrtho) degenerate = true; } }
 				for (auto& q : in.queued) if (q.type != T_SCHEDULE && q.dest > 0 && node(q.dest).kind == ORTHO) { bool onlyOrtho = true; for (int c = node(q.dest).parent; c >= 0; c = node(c).parent) if (node(c).kind != ORTHO) onlyOrtho = false; if (onlyOrtho) degenerate = true; }
-				if (degenerate || in.degeneratePlanDest) return S.known("F29");
+				if (degenerate || in.degeneratePlanDest || in.degenerateReplay) return S.known("F29");
 			}
 		}
 		// F14: the request queue is not empty after the substitution limit was reached
@@ -530,7 +531,17 @@ void Walker::judgeProcessing(Inst& in, const char* what, const Cfg& before, cons
 				// C04: with vetoed or substituted rounds in the step, the outcome must be that of the approved rounds only
 				if (rs.size() >= 2 || (!rs.empty() && lastApproved != (int) rs.size() - 1)) S.violation("C04", "the final configuration is not the one the approved rounds lead to: " + o.str());
 			}
-		} else if (transitionReqs >= 1) st.cls("steps_agreeing_with_model");
+		} else if (transitionReqs >= 1) { st.cls("steps_agreeing_with_model");
+			// lifecycle callbacks the approved rounds lead to (exits, enters, re-entries per state): a vetoed round must not change them (C04)
+			if (!overlap) {
+				unsigned char gotExit[HV_NS] = {0}, gotEnter[HV_NS] = {0}, gotReenter[HV_NS] = {0};
+				for (int i = 0; i < x.n; ++i) { const Ev& e = x.tr[i]; if (e.kind == E_CB && e.a == 0) { if (e.method == (uint8_t) Method::EXIT) ++gotExit[e.state]; else if (e.method == (uint8_t) Method::ENTER) ++gotEnter[e.state]; else if (e.method == (uint8_t) Method::REENTER) ++gotReenter[e.state]; } }
+				int bad = -1; for (int sidx = 0; sidx < HV_NS; ++sidx) { if (isRegion(sidx) && node(sidx).headless) continue; if (gotExit[sidx] != m.lifeExit[sidx] || gotEnter[sidx] != m.lifeEnter[sidx] || gotReenter[sidx] != m.lifeReenter[sidx]) { bad = sidx; break; } }
+				st.cls("lifecycle_prediction_compared");
+				if (bad >= 0) { st.cls("lifecycle_prediction_disagreement");
+					bool vetoed = false; for (auto& r : rs) if (r.cancelled) vetoed = true;
+					if (vetoed) { std::snprintf(buf, sizeof buf, "a vetoed round changed how the approved transitions are applied: state %d received exit x%d enter x%d reenter x%d, the approved rounds alone lead to exit x%d enter x%d reenter x%d (%s, step %u)", bad, gotExit[bad], gotEnter[bad], gotReenter[bad], m.lifeExit[bad], m.lifeEnter[bad], m.lifeReenter[bad], what, S.stepNo); S.violation("C04", buf); } }
+			} }
 	}
 	judgeHistory(in, what, rs, wasActive);
 	bool unrecordedSchedule = false; // schedule requests apply regardless of a veto but only approved rounds are recorded
@@ -622,10 +633,30 @@ void Walker::step(const Op& o, size_t index) {
 #ifdef HV_MANUAL
 		if (in.on) { LIB(f.exit()); in.on = false; afterCall(in, "exit()", false); in.queued.clear(); in.queuedTags.clear(); in.model.off(); in.clearPlanBook();
 			for (int s = 0; s < HV_NS; ++s) if (in.entered[s]) { char b[120]; std::snprintf(b, sizeof b, "state %d still entered after exit() returned", s); S.violation("C03", b); in.entered[s] = false; } }
-		else { x.initialActivation = true; LIB(f.enter()); x.initialActivation = false; in.on = true; afterCall(in, "enter()", true); firstActivation(in); }
+		else { installScript(in, o); x.initialActivation = true; LIB(f.enter()); x.initialActivation = false; in.on = true; afterCall(in, "enter()", true); firstActivation(in); }
 		if (S.replica) { Inst& b = *S.inst[1]; b.ctx.beginStep(S.stepNo); std::memcpy(b.ctx.sel, x.sel, sizeof x.sel); std::memcpy(b.ctx.util, x.util, sizeof x.util); std::memcpy(b.ctx.rank, x.rank, sizeof x.rank); std::memcpy(b.ctx.rnd, x.rnd, sizeof x.rnd);
 			if (!in.on && b.on) { b.fsm->exit(); b.on = false; afterCall(b, "exit() (replica)", false); for (auto& e : b.entered) e = false; b.model.off(); }
-			else if (in.on && !b.on) { b.ctx.initialActivation = true; b.fsm->enter(); b.ctx.initialActivation = false; b.on = true; afterCall(b, "enter() (replica)", true); firstActivation(b); } }
+			else if (in.on && !b.on) {
+				const auto& prev = f.previousTransitions(); const bool viaReplay = prev.count() > 0;
+				bool fellBack = false;
+				b.ctx.initialActivation = true; bool ok = true; if (viaReplay) LIB(ok = b.fsm->replayEnter(prev)); else LIB(b.fsm->enter());
+				if (viaReplay && !ok && !b.fsm->isActive((StateID) 0)) { // F32: a recorded activation whose net effect is the default configuration is refused
+					Model fresh; fresh.env = Env{x.sel, x.util, x.rank, x.rnd, 0}; fresh.initial();
+					if (readCfg(f).sameActive(fresh.cfg) && S.known("F32")) { hv::breaks() = hv::BreakLatch{}; b.ctx.beginStep(S.stepNo); LIB(b.fsm->enter()); ok = true; fellBack = true; st.cls("replay_enter_refused_default_history"); } }
+				b.ctx.initialActivation = false; b.on = b.fsm->isActive((StateID) 0);
+				if (!b.on) { S.violation("C09", "replayEnter() refused the authority's recorded activation and left the replica inactive"); return; }
+				afterCall(b, viaReplay ? "replayEnter() (replica)" : "enter() (replica)", true);
+				for (int s2 = 0; s2 < HV_NS; ++s2) b.entered[s2] = false; lifecycle(b, "replica activation"); b.model.cfg = readCfg(*b.fsm); b.queued.clear(); b.queuedTags.clear(); enteredMatchesActive(b, "replica activation");
+				if (viaReplay && !fellBack) { st.cls("replay_enter"); ++S.replays;
+					if (!ok) S.violation("C09", "replayEnter() refused the authority's recorded activation");
+					for (int i = 0; i < b.ctx.n; ++i) if (isGuard(b.ctx.tr[i])) { S.violation("C09", "replayEnter() consulted a guard"); break; }
+					const Cfg ca = readCfg(f), cb = readCfg(*b.fsm);
+					if (!ca.sameActive(cb)) S.violation("C09", "after replayEnter() the replica's active configuration " + cb.str() + " differs from the authority's " + ca.str());
+					const auto& pb = b.fsm->previousTransitions(); bool same = pb.count() == prev.count(); for (unsigned i = 0; same && i < pb.count(); ++i) same = pb[i].type == prev[i].type && pb[i].destination == prev[i].destination;
+					if (!same) { char bb[200]; std::snprintf(bb, sizeof bb, "after replayEnter() of %u recorded transitions the replica's previousTransitions() holds %u entries (or other ones)", (unsigned) prev.count(), (unsigned) pb.count()); S.violation("C09", bb); }
+				}
+				{ const Cfg ca = readCfg(f), cb = readCfg(*b.fsm); // schedule requests issued by entry guards are applied but never recorded: resynchronise
+				  if (!ca.sameActive(cb) || !ca.sameResumable(cb)) { if (!viaReplay && !ca.sameActive(cb)) S.violation("C09", "two identically prepared instances activated differently"); Instance::SerialBuffer buf2; f.save(buf2); b.ctx.beginStep(S.stepNo); b.fsm->load(buf2); lifecycle(b, "resync"); b.model.cfg = readCfg(*b.fsm); enteredMatchesActive(b, "resync"); st.cls("replica_resync"); } } } }
 #endif
 		break;
 	case OP_SWITCH: if (S.inst[1] && !S.replica) S.cur ^= 1; break;
@@ -633,10 +664,11 @@ void Walker::step(const Op& o, size_t index) {
 		if (S.replica) break;
 		std::vector<M::Transition> v; const int n = 1 + o.a2 % 48;
 		for (int k = 0; k < n; ++k) { const uint32_t h = mix(o.a0 * 256u + o.a1, (uint32_t) k + 5u); int t = (int) (h % 7), d = (int) ((h >> 4) % HV_NS); saneRequest(t, d); v.push_back(M::Transition{(StateID) d, (TransitionType) t}); }
+		for (auto& t : v) if (t.type != TransitionType::SCHEDULE && t.destination > 0 && node(t.destination).kind == ORTHO) { bool onlyOrtho = true; for (int c = node(t.destination).parent; c >= 0; c = node(c).parent) if (node(c).kind != ORTHO) onlyOrtho = false; if (onlyOrtho) in.degenerateReplay = true; }
 		{ bool anyTransition = false; for (auto& t : v) if (t.type != TransitionType::SCHEDULE) anyTransition = true; if (!anyTransition) v[0] = M::Transition{(StateID) (1 % HV_NS), TransitionType::CHANGE}; } // a recorded history always holds a transition
 		in.overlongReplay = n > HV_COMPO_COUNT * HV_SUBST_LIMIT;
 		bool ok = false; LIB(ok = f.replayTransitions(&v[0], (hfsm2::Short) n)); (void) ok;
-		afterCall(in, what, true); in.overlongReplay = false;
+		afterCall(in, what, true); in.overlongReplay = false; in.degenerateReplay = false;
 		for (int i = 0; i < x.n; ++i) if (isGuard(x.tr[i])) { S.violation("C09", "replayTransitions() consulted a guard"); break; }
 		in.queued.clear(); in.queuedTags.clear(); in.model.cfg = readCfg(f); st.cls("replay_of_generated_history"); if (n > HV_COMPO_COUNT * HV_SUBST_LIMIT) st.cls("replay_longer_than_history_capacity");
 		++S.cfgChanges; break; }
@@ -796,6 +828,7 @@ void Walker::judgePlans(Inst& in, const std::vector<std::vector<PTask>>& before,
 	st.cls("plan_tasks_executed", issued.size()); st.cls("plan_status_callbacks", statuses.size());
 	S.planEvents += (int) issued.size() + (int) statuses.size();
 	// ---- safety: every execution is justified, happens once, removes its task
+	bool workPlanExists[HV_REGION_COUNT > 0 ? HV_REGION_COUNT : 1] = {false}; for (int i = 0; i < firstRound; ++i) if (x.tr[i].kind == E_ACT_PLAN && x.tr[i].method != 255 && x.tr[i].f > 0.5f) workPlanExists[x.tr[i].a] = true;
 	std::vector<std::vector<PTask>> work = before;   // tasks still in the plans as the step proceeds (appends by scripts are added when seen)
 	{ size_t ii = 0;
 	  for (int i = 0; i < firstRound; ++i) { const Ev& e = x.tr[i];
@@ -819,6 +852,18 @@ void Walker::judgePlans(Inst& in, const std::vector<std::vector<PTask>>& before,
 		bool same = now.size() == work[r].size(); for (size_t k = 0; same && k < now.size(); ++k) same = now[k].origin == work[r][k].origin && now[k].dest == work[r][k].dest && now[k].type == work[r][k].type && now[k].tag == work[r][k].tag;
 		if (!same) { std::snprintf(buf, sizeof buf, "plan of region %d holds %zu tasks after the step, %zu were expected to remain (executed tasks are removed exactly once, others stay) (%s, step %u)", r, now.size(), work[r].size(), what, S.stepNo); S.violation("C06", buf); }
 	}
+	// a failure reported in this step by a sub-state (directly, or passed on by the default planFailed of a nested plan-owning region) makes the
+	// innermost plan-owning region around it fail: its tasks must not be executed and it must not report success
+	{ auto owner = [&](int s0) { for (int c = node(s0).parent; c >= 0; c = node(c).parent) if (in.planExists[node(c).region] || workPlanExists[node(c).region]) return c; return -1; };
+	  for (int i = 0; i < firstRound; ++i) { const Ev& e = x.tr[i];
+		if (!(e.kind == E_LOG_TASK && e.b == 1 && e.state > 0 && e.state < HV_NS && wasActive[e.state])) continue;
+		// reported on behalf of another state (succeed(id)/fail(id) from a different callback): attribution is F13 territory
+		if (i > 0 && x.tr[i - 1].kind == E_ACT_FAIL && x.tr[i - 1].state != x.tr[i - 1].a) continue;
+		const int r = owner(e.state); if (r < 0 || !wasActive[r]) continue;
+		if (node(e.state).parent != r) continue; // only direct sub-states: the result of a nested region is what its head reports (its own mark wins over its sub-states')
+		for (auto& q : issued) if (q.head == r && q.at > i) { std::snprintf(buf, sizeof buf, "region %d executed a plan task (%s->%d) in a step in which its sub-state %d reported failure (%s, step %u)", r, TTN[q.type % 7], q.dest, e.state, what, S.stepNo); S.violation("C06", buf); break; }
+		for (auto& sc : statuses) if (sc.head == r && sc.success && sc.at > i) { std::snprintf(buf, sizeof buf, "region %d received planSucceeded in a step in which its sub-state %d reported failure (%s, step %u)", r, e.state, what, S.stepNo); S.violation("C06", buf); break; }
+		st.cls("plan_failure_evidence_checked"); } }
 	// status callbacks need a reason: some state reported the same result earlier in this step (or carried the mark into it)
 	for (auto& sc : statuses) {
 		bool reason = false;
@@ -951,7 +996,7 @@ void Walker::judgeReport(Inst& in, const char* what, bool on) {
 // C08: save(src) -> load(dst)
 
 void Walker::saveLoad(Inst& src, Inst& dst) {
-	static_assert(Instance::SerialBuffer::BIT_CAPACITY == HV_SERIAL_BITS, "serialization buffer size does not follow from the structure");
+	if ((int) Instance::SerialBuffer::BIT_CAPACITY != HV_SERIAL_BITS) { char b[200]; std::snprintf(b, sizeof b, "SerialBuffer::BIT_CAPACITY is %d, the structure needs %d bits (1 + active bits + resumable bits)", (int) Instance::SerialBuffer::BIT_CAPACITY, HV_SERIAL_BITS); S.violation("C08", b); S.violation("C17", b); }
 	struct Guarded { uint8_t pre[64]; Instance::SerialBuffer buf; uint8_t post[64]; };
 	Guarded g, g2; std::memset(g.pre, 0xA5, 64); std::memset(g.post, 0x5A, 64); std::memcpy(&g2, &g, sizeof g);
 	std::memset(g.buf.data(), 0xEE, Instance::SerialBuffer::BYTE_COUNT); std::memset(g2.buf.data(), 0x11, Instance::SerialBuffer::BYTE_COUNT);
@@ -1153,8 +1198,9 @@ static std::string hv_render(const hv::Bytes& b) {
 // op-kind weights per property profile
 static std::vector<int> profileWeights(const std::string& p) {
 	//                      upd reA reB qry req bat suc fai pAp pCl rst e/x s/l rpl log swi qB  pRm c+d
-	if (p == "C04" || p == "C13" || p == "C09" || p == "C14")
+	if (p == "C04" || p == "C13" || p == "C14")
 		return std::vector<int>{ 6,  3,  0,  1, 12,  3,  0,  0,  0,  0,  1,  1,  0,  0,  1,  0,  0,  0,  0};
+	if (p == "C09") return std::vector<int>{ 6,  3,  0,  1, 12,  3,  0,  0,  0,  0,  1,  4,  0,  0,  1,  0,  0,  0,  0};
 	if (p == "C02") return std::vector<int>{ 6,  2,  0,  1, 12,  5,  0,  0,  0,  0,  2,  1,  0,  0,  1,  0,  0,  0,  0};
 	if (p == "C11") return std::vector<int>{ 6,  3,  1,  1, 10,  6,  1,  1,  3,  1,  1,  1,  1,  2,  1,  1,  1,  1,  1};
 	if (p == "C05") return std::vector<int>{ 6,  6,  2,  6,  8,  1,  0,  0,  0,  0,  1,  1,  0,  0,  1,  0,  2,  0,  0};
